@@ -3,6 +3,8 @@
 
 * `Pool`: the pool of big rationals (`FastRational::mpqPool`): `alloc` pops a released cell if there is one, otherwise creates a
   new one; `release` pushes the cell.  With the mutex every execution of several threads is a sequence of these steps.
+* `Sys`: the pool together with the threads that use it: every step is one thread's `alloc` or `release`, in any order (the
+  mutex makes each atomic); `owner` records which thread holds which cell.
 * `Stop`: the restart loop of `CoreSMTSolver::solve_`: every round first looks at the stop flags (`okContinue`), then searches; the
   search of round k either comes back undecided or with a definitive answer.
 Core Lean only.
@@ -27,6 +29,24 @@ def Pool.release (p : Pool) (c : Nat) : Pool :=
 /-- every cell is free or in use, never both, never twice -/
 def Pool.Inv (p : Pool) : Prop :=
   (p.free ++ p.inUse).Nodup ∧ ∀ c ∈ p.free ++ p.inUse, c < p.created
+
+/-- the pool as several threads use it: every step is one thread's `alloc` or `release` (the mutex makes them atomic) -/
+inductive POp where
+  | alloc (t : Nat)
+  | release (t : Nat) (c : Nat)
+deriving Repr
+
+structure Sys where
+  pool : Pool := {}
+  owner : List (Nat × Nat) := []      -- ghost: (cell, thread) for every cell handed out and not yet given back
+deriving Repr
+
+/-- a thread releases only a cell it holds (a FastRational releases its own `mpq` in its destructor) -/
+def Sys.step (s : Sys) : POp → Sys
+  | .alloc t => { pool := s.pool.alloc.1, owner := (s.pool.alloc.2, t) :: s.owner }
+  | .release t c => if (c, t) ∈ s.owner then { pool := s.pool.release c, owner := s.owner.erase (c, t) } else s
+
+def Sys.run (s : Sys) (ops : List POp) : Sys := ops.foldl Sys.step s
 
 inductive Ans where
   | sat | unsat | unknown
